@@ -49,9 +49,17 @@ def replay_history(w, h, rng, from_file=False):
     ex = xc.new_executor(w, from_file)
     pos = w.pos
     obs = []
+    lazy = rng.random() < 0.34          # a third of the replays ask nothing until the last batch has been set
     for rnd, step in enumerate(h):
         cells = [xc.mk_cell(pos[c], v, rng.randint(0, 2)) for c, v in step['batch']]
         ex.set_cells(cells)
+        # calls that change nothing in the ideal executor: an empty batch, the same batch once more
+        if rng.random() < 0.3:
+            ex.set_cells([])
+        if rng.random() < 0.2:
+            ex.set_cells([xc.mk_cell(pos[c], v, rng.randint(0, 2)) for c, v in step['batch']])
+        if lazy and rnd < len(h) - 1:
+            continue
         snap = step['snap']
         order = list(snap['vals'])
         rng.shuffle(order)
